@@ -270,6 +270,9 @@ FAMILIES = {
 
 # fixed-size edge inputs (constant expressions at the limits, sizes near 2^64, ...)
 EDGES = [
+    # void expressions in every position a value may be dropped
+    "void f(void*b){*b;}", "void g(void);void f(void*b,int c){c?*b:g();}", "void f(void*b){(void)*b;}", "void f(const void*b){*b,*b;}", "void f(void){*(void*)0;}",
+    "void f(volatile void*b){*b;}", "void f(void*b){for(*b;;*b)break;}", "void g(void);void f(void*b){g(),*b;}", "void f(void**b){**b;}", "void f(void*b){b[0];}",
     # objects and types of size zero (GNU zero-length arrays, structs made of them) in every storage class and use
     "void f(void){struct{char s[0];}x;}", "void f(void){int b[0];}", "int g(int*);int f(void){int b[0];return g(b);}", "struct{char s[0];}x;int y=sizeof x;",
     "int a[0];int*p=a;", "void f(void){static int b[0];}", "void f(void){int b[0][3];int c[3][0];}", "struct z{int a[0];};struct z f(struct z v){return v;}",
